@@ -469,3 +469,29 @@ def r16_11_week_rules_ask_the_calculator(ctx: Ctx) -> RuleResult:
         else:
             rr.fail(f.qual, f"`{unparse(bad)[:90]}`: CalendarSystem.{bad.func.attr} rejects years outside [min_year, max_year], but the week-year asked about can be min_year - 1 or max_year + 1 (the last days of year 9999 belong to week-year 10000 under most rules): ask the calculator", ctx.loc(f, bad))
     return rr
+
+
+@rule("C16")
+def r16_12_nth_weekday_uses_the_real_month_length(ctx: Ctx) -> RuleResult:
+    """The n-th-weekday constructor steps back a week when the 5th occurrence would lie beyond the end of the month.  Whether it
+    does depends on the length of THAT month in THAT year (29 February 2024 is the fifth Thursday): the bound of the overshoot
+    test is a days-in-month query that receives both the year and the month, never a static per-month table."""
+    rr = RuleResult("R16.12", "the overshoot test of the n-th-weekday constructor compares with days_in_month(year, month) of the very year and month", min_instances=1)
+    M = ctx.M
+    f = M.func("LocalDate.from_year_month_week_and_day", required=True)
+    from ..kit import inline_locals
+
+    tests = [n for n in own_nodes(f.node) if isinstance(n, ast.If) and any(isinstance(x, ast.AugAssign) and isinstance(x.op, ast.Sub) and unparse(x.value) == "7" for x in ast.walk(n))]
+    if not tests:
+        raise AnalysisError(f"{f.qual}: the step back by 7 days (overshoot of the month) was not found")
+    ps = [p.arg for p in f.value_params]
+    for t in tests:
+        rr.inst()
+        v = inline_locals(f.node, t.test)
+        calls = [c for c in ast.walk(v) if isinstance(c, ast.Call) and unparse(c.func).split(".")[-1] in ("get_days_in_month", "_get_days_in_month")]
+        ok = any({a.id for a in c.args if isinstance(a, ast.Name)} >= {ps[0], ps[1]} for c in calls)
+        if ok:
+            rr.ok({"test": unparse(t.test)[:80]})
+        else:
+            rr.fail(f.qual, f"`{unparse(t.test)[:90]}` does not compare with the length of month `{ps[1]}` in year `{ps[0]}` (a days-in-month query receiving both): for a leap-year February the fifth occurrence on the 29th is taken for an overshoot", ctx.loc(f, t))
+    return rr
